@@ -39,7 +39,17 @@ func (w *Reader) Get(k []byte) (v []byte, err error) {
 }
 
 func (r *Reader) MultiGet(keys [][]byte) ([][]byte, error) {
-	return store.MultiGet(r, keys)
+	// store.MultiGet of upsidedown_store_api v1.0.2 indexes into a
+	// zero-length slice and panics for any non-empty key list
+	vals := make([][]byte, len(keys))
+	for i, key := range keys {
+		val, err := r.Get(key)
+		if err != nil {
+			return nil, err
+		}
+		vals[i] = val
+	}
+	return vals, nil
 }
 
 func (w *Reader) PrefixIterator(k []byte) store.KVIterator {
